@@ -52,6 +52,20 @@ EXPLANATION = ("Theorems in Props/C18.lean are about Model/Origin.lean; every ru
 TOL32 = 5e-4
 
 
+def pregenerate():
+    """called by the runner before `lake build`: retranslate _plane / _parabola / _bezier_two of $QVERIF_REPO/src into
+    lean/QuantemModel/Generated/OriginSurface.lean (theorems generated_eq_spec_* in Props/C18.lean).  A source outside the
+    translator's grammar is returned as a note = a broken tie (the previous file stays in place), never a crash."""
+    from translator import surface2lean
+    try:
+        surface2lean.regenerate()
+    except surface2lean.TranslationError as e:
+        return f"surface2lean: {e}"
+    except Exception as e:  # noqa
+        return f"surface2lean: {type(e).__name__}: {e}"
+    return None
+
+
 class HarnessError(RuntimeError):
     """a fault of the harness/driver itself (never swallowed)"""
 
@@ -880,9 +894,6 @@ SIGNATURES = {
                                         ["origin_coordinate", "(0, 0)"], ["mode", "bilinear"]],
     "PtychographyDatasetRaster._set_intensities_com": [["self", None], ["intensities", None], ["dp_mask", "None"], ["fit_function", "plane"], ["vectorized_calculation", "True"]],
     "fit_origin": [["data", None], ["mask", "None"], ["fit_function", "plane"], ["robust", "False"], ["robust_steps", "3"], ["robust_thresh", "2"]],
-    "_plane": [["xy", None], ["mx", None], ["my", None], ["b", None]],
-    "_parabola": [["xy", None], ["c0", None], ["cx1", None], ["cx2", None], ["cy1", None], ["cy2", None], ["cxy", None]],
-    "_bezier_two": [["xy", None], ["c00", None], ["c01", None], ["c02", None], ["c10", None], ["c11", None], ["c12", None], ["c20", None], ["c21", None], ["c22", None]],
 }
 PREPROCESS_COM_DEFAULTS = {"com_fit_function": "plane", "vectorized": "True"}
 
